@@ -80,6 +80,8 @@ def providerCase (inp impl : String) : CaseOut :=
       let (st', o, tag) :=
         if kind = "hs" then let r := provHandshake st (mk arg); (r.1, r.2, if hasId st.members arg then "handshake.known" else "handshake.new")
         else if kind = "ms" then let r := provMembers st ((plusList arg).map mk); (r.1, r.2, "members")
+        -- ur: the same report arriving the way the remote publishes it (event stream -> the provider's event child)
+        else if kind = "ur" then let r := provLeave st ("h" ++ arg ++ ":1"); (r.1, r.2, if r.2.isEmpty then "unreachable-event.nonmember" else "unreachable-event.member")
         else if kind = "lv" then let r := provLeave st ("h" ++ arg ++ ":1"); (r.1, r.2, if r.2.isEmpty then "leave.nonmember" else "leave.member")
         else (st, [], "bad")
       let obs := o.map (showOut · arg) ++ ["members:" ++ String.intercalate "+" (sortStrs (ids st'.members)), "inc:1"]
